@@ -87,6 +87,33 @@ macro_rules! adapter {
                     return Err(fail("fixint", format!("{}: decoding {} through a reader with short reads and Interrupted gave {:?}", $label, hex(&got), r), cj()));
                 }
             }
+            // CRC-framed: single-byte items, a bulk item, single-byte items again; the frame is the same bytes + their CRC-32
+            {
+                #[derive(Serialize, Deserialize, PartialEq, Debug)]
+                struct Sandwich {
+                    flag: bool,
+                    #[serde(with = $module)]
+                    x: $t,
+                    mid: u32,
+                    #[serde(with = $module)]
+                    y: $t,
+                    end: u8,
+                }
+                static CRC: crc::Crc<u32> = crc::Crc::<u32>::new(&crc::CRC_32_ISCSI);
+                let y = (raw.rotate_left(17) ^ 0x5A5A_5A5A_5A5A_5A5A_5A5A_5A5A_5A5A_5A5Au128) as $t;
+                let sw = Sandwich { flag: before % 2 == 1, x, mid: 70_000 + after as u32, y, end: before };
+                let plain = no_panic(|| postcard::to_allocvec(&sw)).map_err(|p| fail("fixint", format!("serialise panicked: {}", p), cj()))?.map_err(|e| fail("fixint", format!("serialise failed: {:?}", e), cj()))?;
+                let mut frame = plain.clone();
+                frame.extend_from_slice(&CRC.checksum(&plain).to_le_bytes());
+                let got = no_panic(|| postcard::to_allocvec_crc32(&sw, CRC.digest())).map_err(|p| fail("fixint", format!("to_allocvec_crc32 panicked: {}", p), cj()))?;
+                if got.as_ref() != Ok(&frame) {
+                    return Err(fail("fixint", format!("{}: CRC-framed encoding = {:?}, the plain bytes followed by their CRC-32 are {}", $label, got.map(|b| hex(&b)), hex(&frame)), cj()));
+                }
+                let back = no_panic(|| postcard::from_bytes_crc32::<Sandwich>(&frame, CRC.digest())).map_err(|p| fail("fixint", format!("from_bytes_crc32 panicked: {}", p), cj()))?;
+                if back.as_ref() != Ok(&sw) {
+                    return Err(fail("fixint", format!("{}: CRC-framed message {} decodes as {:?}", $label, hex(&frame), back), cj()));
+                }
+            }
             // COBS-framed: the frame is the COBS transform of the same bytes, and decodes back - also when the fixed-width
             // field closes a message that ends on / right behind a full 254-byte block
             {
